@@ -20,9 +20,10 @@ const PHASE: u64 = 0xC08;
 const CASES_PER_WORLD: u64 = 40;
 
 // manifest nesting budget (SBOR levels above the rule) of the channels a rule travels through
-const WRAP_SET: usize = 4; // set_role / set_owner_role / verify_parent / account owner role
-const WRAP_OWNER_CREATE: usize = 5;
-const WRAP_ROLE_CREATE: usize = 9;
+// (calibrated with `rv-auth C08-depth-probe`)
+const WRAP_SET: usize = 3; // set_role / set_owner_role
+const WRAP_OWNER_CREATE: usize = 4; // owner role of a created resource / account, verify_parent
+const WRAP_ROLE_CREATE: usize = 7; // role of a created resource
 
 #[derive(Clone, Copy, PartialEq, Eq, Debug, Hash)]
 enum Ctx {
@@ -104,7 +105,8 @@ const NF_EXTRA_ROLES: [&str; 2] = ["non_fungible_data_updater", "non_fungible_da
 const META_ROLES: [&str; 4] = ["metadata_setter", "metadata_setter_updater", "metadata_locker", "metadata_locker_updater"];
 
 fn updater_of(key: &str) -> String {
-    if key.ends_with("_updater") {
+    // updater roles update themselves; note that "non_fungible_data_updater" is an actor role
+    if key.ends_with("_updater") && key != "non_fungible_data_updater" {
         key.to_string()
     } else {
         format!("{key}_updater")
@@ -137,7 +139,7 @@ enum Probe {
 impl Probe {
     fn name(&self) -> &'static str {
         match self {
-            Probe::Mint => "resource:mint(minter)",
+            Probe::Mint => "resource:mint+account-deposit(minter,depositor)",
             Probe::Burn => "resource:mint+burn(minter,burner)",
             Probe::WithdrawDeposit => "vault:take+put-via-account(withdrawer,depositor)",
             Probe::MintDeposit => "resource:mint+vault:put(minter,depositor)",
@@ -163,7 +165,7 @@ impl Probe {
     fn steps(&self, e: &Entity) -> Vec<(AccessRule, Ctx, &'static str)> {
         let r = |k: &str, c: Ctx| (e.role(MAIN, k), c, e.role_source(MAIN, k));
         match self {
-            Probe::Mint => vec![r("minter", Ctx::Direct)],
+            Probe::Mint => vec![r("minter", Ctx::Direct), r("depositor", Ctx::ViaAccount)],
             Probe::Burn => vec![r("minter", Ctx::Direct), r("burner", Ctx::Direct)],
             Probe::WithdrawDeposit => vec![r("withdrawer", Ctx::ViaAccount), r("depositor", Ctx::ViaAccount)],
             Probe::MintDeposit | Probe::NfMint => vec![r("minter", Ctx::Direct), r("depositor", Ctx::ViaAccount)],
@@ -353,7 +355,7 @@ fn create_entity(w: &mut World, shard: &mut Shard, rng: &mut Rng) -> Option<Enti
     let mut roles: BTreeMap<(u8, String), Option<AccessRule>> = BTreeMap::new();
     match kind {
         EKind::Account => {
-            let (owner_role, owner, updater) = gen_owner(rng, u, WRAP_SET);
+            let (owner_role, owner, updater) = gen_owner(rng, u, WRAP_OWNER_CREATE);
             let m = ManifestBuilder::new().lock_fee_from_faucet().new_account_advanced(owner_role, None).build();
             let r = w.ledger.exec(shard, "setup:account-entity", m, vec![]);
             if !r.is_success() {
@@ -552,6 +554,7 @@ struct CaseInfo<'a> {
     placement: &'a Placement,
     coords: serde_json::Value,
     assertion: bool,
+    probe: String,
 }
 
 /// compares prediction and observation; returns true when the call was observed to succeed
@@ -640,6 +643,7 @@ fn judge(shard: &mut Shard, u: &Universe, info: &CaseInfo, exp: &Expect, obs: &O
             json!({
                 "replay": info.coords,
                 "vehicle": info.vehicle,
+                "probe": info.probe,
                 "expected": format!("{exp:?}"),
                 "observed": format!("{obs:?}"),
                 "applicable_rules_in_call_order": rules,
@@ -737,7 +741,7 @@ fn run_entity_probe(w: &mut World, shard: &mut Shard, rng: &mut Rng, e: &mut Ent
         return;
     };
     let obs = observe(receipt);
-    let info = CaseInfo { vehicle: label, steps: &steps, zone: &zone, placement: &placement, coords, assertion: false };
+    let info = CaseInfo { vehicle: label, steps: &steps, zone: &zone, placement: &placement, coords, assertion: false, probe: format!("{probe:?} on {:?} {:?} owner={:?} updater={:?} roles={:?}", e.kind, e.addr, e.owner, e.updater, e.roles) };
     judge(shard, &w.u, &info, &exp, &obs);
     if obs == Observed::Success {
         probe.on_success(e);
@@ -747,7 +751,7 @@ fn run_entity_probe(w: &mut World, shard: &mut Shard, rng: &mut Rng, e: &mut Ent
 /// explicit assertion: a subintent executes VERIFY_PARENT(rule) against its parent intent
 fn run_verify_parent(w: &mut World, shard: &mut Shard, rng: &mut Rng, coords: serde_json::Value) {
     let nest = *rng.pick(&[0usize, 1, 2, 3, 4, 6, 8]);
-    let rule = gen_rule(rng, &w.u, nest, WRAP_SET);
+    let rule = gen_rule(rng, &w.u, nest, WRAP_OWNER_CREATE);
     let steps = vec![(rule.clone(), Ctx::Parent, "explicit-assertion")];
     let nested = rng.chance(2, 5);
     let needs = if rng.chance(13, 20) { needs_for(rng, &steps, &w.u) } else { None };
@@ -793,7 +797,7 @@ fn run_verify_parent(w: &mut World, shard: &mut Shard, rng: &mut Rng, coords: se
         return;
     };
     let obs = observe(receipt);
-    let info = CaseInfo { vehicle: label, steps: &steps, zone: &zone, placement: &placement, coords, assertion: true };
+    let info = CaseInfo { vehicle: label, steps: &steps, zone: &zone, placement: &placement, coords, assertion: true, probe: format!("verify_parent nested={nested}") };
     judge(shard, &w.u, &info, &exp, &obs);
 }
 
@@ -876,7 +880,7 @@ fn spec(tier: Tier) -> Spec {
         s = s.floor(&format!("kind:{k}"), q(100, 3000));
     }
     for v in [
-        "resource:mint(minter)",
+        "resource:mint+account-deposit(minter,depositor)",
         "resource:mint+burn(minter,burner)",
         "vault:take+put-via-account(withdrawer,depositor)",
         "resource:mint+vault:put(minter,depositor)",
@@ -950,4 +954,51 @@ fn replay(args: &Args, path: &std::path::Path, report: Report) -> i32 {
     } else {
         1
     }
+}
+
+/// calibration helper: which nesting depths survive the manifest channels (prints a table)
+pub fn depth_probe(args: &Args) -> i32 {
+    let mut shard = Shard::new(0, "C08", args.tier, std::time::Instant::now() + Duration::from_secs(600));
+    let mut w = build_world(&mut shard).expect("world");
+    let u = &w.u;
+    let leafs: Vec<(&str, BasicRequirement)> = vec![
+        ("amount-of", BasicRequirement::AmountOf(dec!(1), u.f[0].addr)),
+        ("require-resource", BasicRequirement::Require(ResourceOrNonFungible::Resource(u.f[0].addr))),
+        ("require-id", BasicRequirement::Require(ResourceOrNonFungible::NonFungible(u.keys[0].clone()))),
+        ("count-of-ids", BasicRequirement::CountOf(1, vec![ResourceOrNonFungible::NonFungible(u.keys[0].clone())])),
+    ];
+    let a0 = u.accounts[0];
+    for (name, leaf) in leafs {
+        for d in 0..=9usize {
+            let mut c = CompositeRequirement::BasicRequirement(leaf.clone());
+            for _ in 0..d {
+                c = CompositeRequirement::AnyOf(vec![c]);
+            }
+            let rule = AccessRule::Protected(c);
+            let fit: Vec<usize> = (0..14).filter(|wr| fits(&rule, *wr)).collect();
+            let max_wrap = fit.last().cloned();
+            // actual channels
+            let set = rv_common::catch_mut(|| {
+                let m = ManifestBuilder::new().lock_fee_from_faucet().set_owner_role(a0, rule.clone()).build();
+                w.ledger.exec(&mut shard, "probe", m, vec![]).receipt.map(|r| outcome_class(&r))
+            });
+            let create_owner = rv_common::catch_mut(|| {
+                let m = ManifestBuilder::new().lock_fee_from_faucet().create_fungible_resource(OwnerRole::Fixed(rule.clone()), true, 0, FungibleResourceRoles::default(), metadata!(), None).build();
+                w.ledger.exec(&mut shard, "probe", m, vec![]).receipt.map(|r| outcome_class(&r))
+            });
+            let create_role = rv_common::catch_mut(|| {
+                let mut rr = FungibleResourceRoles::default();
+                rr.mint_roles = Some(MintRoles { minter: Some(rule.clone()), minter_updater: None });
+                let m = ManifestBuilder::new().lock_fee_from_faucet().create_fungible_resource(OwnerRole::None, true, 0, rr, metadata!(), None).build();
+                w.ledger.exec(&mut shard, "probe", m, vec![]).receipt.map(|r| outcome_class(&r))
+            });
+            let acct = rv_common::catch_mut(|| {
+                let m = ManifestBuilder::new().lock_fee_from_faucet().new_account_advanced(OwnerRole::Fixed(rule.clone()), None).build();
+                w.ledger.exec(&mut shard, "probe", m, vec![]).receipt.map(|r| outcome_class(&r))
+            });
+            let f = |r: Result<Option<String>, PanicInfo>| match r { Ok(Some(s)) => s, Ok(None) => "not-convertible".into(), Err(p) => format!("builder-panic:{}", p.message.chars().take(40).collect::<String>()) };
+            println!("leaf={name} nest={d} max_wrap_that_fits={max_wrap:?} set_owner_role={} create(owner)={} create(role)={} new_account={}", f(set), f(create_owner), f(create_role), f(acct));
+        }
+    }
+    0
 }
